@@ -195,22 +195,21 @@ Fixpoint tlLoop (r : rep) (k : nat) (nr : Z) (d : Z) (t : Z) (cur : sentry) (acc
       tlLoop r k' (nr + 1) d' t {| e_t := lsiStart'; e_d := d'; e_r := 0 |} (cur :: acc) lsiStart' d' nr
   end.
 
-(** relative index of the newest segment that has ended at relative time [relMS] (+ato), and the
-    wrap it belongs to *)
-Definition edgeIdx (r : rep) (wraps relMS atoTicks : Z) : Z * Z :=
-  let relT := Z.quot (relMS * ts r) 1000 in
+(** relative index of the newest segment that has ended at relative time [relMS] (+ the offset
+    [atoMS], added before the single conversion to media time), and the wrap it belongs to *)
+Definition edgeIdx (r : rep) (wraps relMS atoMS : Z) : Z * Z :=
+  let relT := Z.quot ((relMS + atoMS) * ts r) 1000 in
   let n := nsegs r in
-  if relT + atoTicks <? en (segAt r 0) then (wraps - 1, n - 1)
+  if relT <? en (segAt r 0) then (wraps - 1, n - 1)
   else
-    let i := firstFinishedIdx (segs r) (relT + atoTicks) in
+    let i := firstFinishedIdx (segs r) relT in
     if i <? 0 then (wraps - 1, n - 1) else (wraps, i).
 
 Definition generateTimelineEntries (r : rep) (wt : wrapTimes) (atoMS : Z) : segEntries :=
   let n := nsegs r in
-  let atoT := Z.quot (atoMS * ts r) 1000 in
-  let '(sw0, si0) := edgeIdx r (startWraps wt) (startRelMS wt) atoT in
+  let '(sw0, si0) := edgeIdx r (startWraps wt) (startRelMS wt) atoMS in
   let '(sw, si) := if sw0 <? 0 then (0, 0) else (sw0, si0) in
-  let '(nw, ni) := edgeIdx r (nowWraps wt) (nowRelMS wt) atoT in
+  let '(nw, ni) := edgeIdx r (nowWraps wt) (nowRelMS wt) atoMS in
   if nw <? 0 then
     {| se_startNr := -1; se_entries := []; se_lsi_nr := -1; se_lsi_start := 0; se_lsi_dur := 0 |}
   else
